@@ -1065,13 +1065,22 @@ func (g *Gen) execInstr(in ssa.Instruction) {
 				if g.ghostVals == nil {
 					g.ghostVals = map[string]Val{}
 				}
-				v, ok := g.tryEval(c.Expr, g.localEnv())
+				genv := g.localEnv()
+				if rv, has := g.pendingGhostRes[c.Name]; has {
+					// `result` / `result.N` inside a ghost expression: what the anchoring call returned
+					if len(rv.Fs) > 0 {
+						genv.results = rv.Fs
+					} else {
+						genv.results = []Val{rv}
+					}
+				}
+				v, ok := g.tryEval(c.Expr, genv)
 				if !ok {
 					// a name it mentions is not bound yet (its first reference comes later): try again at the next
 					// instruction; the block's terminator is the last chance
 					switch in.(type) {
 					case *ssa.If, *ssa.Jump, *ssa.Return, *ssa.Panic:
-						g.eval(c.Expr, g.localEnv()) // raises the contract error
+						g.eval(c.Expr, genv) // raises the contract error
 					}
 					g.pendingGhosts = append(g.pendingGhosts, c)
 					continue
